@@ -299,6 +299,16 @@ def gen_world(run_seed: int) -> dict:
         if rng.random() < 0.3:
             k["coroutines"] = True
         v.write(main, exps.ExpsGen(rng, k).program())
+    srng = seeds.stream(run_seed, "settings-file")
+    if srng.random() < 0.3:
+        # "a JSON file that contains at least the settings block": a whole model of another script (say, the output of an
+        # earlier compile run) serves as settings file - its routines are not this program's
+        stale = {"settings": SETTINGS["settings"],
+                 "routines": [{"type": "generic", "target_type": None, "target_id": None,
+                               "ops": [{"opcode": "stale_op", "params": [1]}, {"opcode": "End", "params": []}]}]}
+        if srng.random() < 0.5:
+            stale["note"] = "kept from the last build"
+        v.write("/proj/settings.json", json.dumps(stale))
     main_arg = main if rng.random() < 0.5 else os.path.relpath(main, "/proj")
     sm = rng.choice([None, "out.sm", "/proj/build/out.sm"])
     if sm == "/proj/build/out.sm":
@@ -465,7 +475,13 @@ def run_world(item: dict) -> dict:
         return res
     res["processes"] += 1
     v2 = Vfs.load(w["vfs"])
-    v2.write("/proj/out.json", r["stdout"])
+    if frng.random() < 0.25:
+        # the hand-off through a pipe (`decompile <(compile ...)`, /dev/stdin): a path that exists and can be read but is
+        # not a regular file
+        v2.mkfifo("/proj/out.json", r["stdout"])
+        res["handoff_through_pipe"] = 1
+    else:
+        v2.write("/proj/out.json", r["stdout"])
     r2 = run_cli("explorerscript.cli.decompile", ["out.json"] + (["--source-map", "dec.sm"] if frng.random() < 0.5 else []), v2.dump())
     res["processes"] += 1
     count_exit("decompile", r2["exit"])
@@ -765,6 +781,7 @@ def check(rep, tier: str, master: int, only_idx=None) -> None:
         agg["processes"] += r["processes"]
         kinds[r["kind"].split(":")[0]] = kinds.get(r["kind"].split(":")[0], 0) + 1
         agg["slow_decompile_skipped"] = agg.get("slow_decompile_skipped", 0) + r.get("slow_decompile_skipped", 0)
+        agg["handoff_through_pipe"] = agg.get("handoff_through_pipe", 0) + r.get("handoff_through_pipe", 0)
         for k, v in r["exits"].items():
             exits[k] = exits.get(k, 0) + v
         for k, v in r["faults"].items():
